@@ -67,8 +67,8 @@ CLAIMED = {
    ref="5/C10"),
  "C11": dict(
    technique="property-based testing: generated poetic word sequences and line texts checked against an independent digit rule (decimal numeral -> correctly rounded f64) and byte-exact string oracle",
-   text="100k (quick) poetic number literals (1-300 words, lengths incl. multiples of 10, apostrophes, stacked 's/'re suffixes, hyphens, keywords as words, periods/commas anywhere, non-ASCII), poetic strings (any line text closed on the line, followed by lines that must survive) and expression-like right-hand sides per profile; printed value and compute_value() vs the numeral spelled by the words, within the stated ulp tolerance (exact for integers < 2^53).",
-   note="bounded to <= 300 digits per side (known finding F12) and to texts whose quotes/parentheses close on the line (F11, outside the quantifier); std f64 parsing trusted",
+   text="100k (quick) poetic number literals (1-300 words plus extreme ones of ~430 digits per side, lengths incl. multiples of 10, apostrophes, stacked 's/'re suffixes, hyphens, keywords as words, periods/commas anywhere, non-ASCII), poetic strings (any line text closed on the line, followed by lines that must survive) and expression-like right-hand sides per profile; printed value and compute_value() vs the numeral spelled by the words, within the stated ulp tolerance (exact for integers < 2^53).",
+   note="poetic strings bounded to texts whose quotes/parentheses close on the line (F11, outside the quantifier); tolerance 16 ulp for non-integers (measured maximum 8); std f64 parsing trusted",
    ref="5/C11"),
  "C13": dict(
    technique="property-based testing: fault injection into generated valid programs; oracle = rejected, on the line computed from the text",
